@@ -219,6 +219,14 @@ func (x *Exec) Verify() {
 			}
 		}
 	}
+	for was, now := range x.e.renamesOf(fn) {
+		if v, ok := x.params[now]; ok {
+			if _, taken := x.params[was]; !taken {
+				x.params[was] = v
+				x.params[was+"0"] = v
+			}
+		}
+	}
 	for _, fv := range fn.FreeVars {
 		v := x.e.freshVal(p, fv.Type().(*types.Pointer).Elem(), fv.Name())
 		v.Label = fv.Name()
@@ -722,6 +730,9 @@ var unknownIdentRe = regexp.MustCompile(`unknown identifier "([A-Za-z_][A-Za-z0-
 func (x *Exec) isLocalName(name string) bool {
 	if x.fn == nil {
 		return false
+	}
+	if now := x.e.renamesOf(x.fn)[name]; now != "" {
+		name = now
 	}
 	for _, b := range x.fn.Blocks {
 		for _, in := range b.Instrs {
@@ -1252,6 +1263,11 @@ func (x *Exec) modObjKeysOfContract(fc *FuncContract, cc *ssa.CallCommon, objOf 
 	if fn != nil && fc.Kind == "func" {
 		for _, prm := range fn.Params {
 			ptypes[prm.Name()] = prm.Type()
+		}
+		for was, now := range x.e.renamesOf(fn) {
+			if t, ok := ptypes[now]; ok && ptypes[was] == nil {
+				ptypes[was] = t
+			}
 		}
 	} else if cc != nil {
 		var ats []types.Type
@@ -2466,6 +2482,15 @@ func (x *Exec) withResults(fc *FuncContract, vars map[string]Val, res []Val) map
 		if fn != nil && fn.Signature.Results().Len() > i {
 			if n := fn.Signature.Results().At(i).Name(); n != "" && n != "_" {
 				out[n] = r
+			}
+		}
+	}
+	if fn != nil {
+		for was, now := range x.e.renamesOf(fn) {
+			if v, ok := out[now]; ok {
+				if _, taken := out[was]; !taken {
+					out[was] = v
+				}
 			}
 		}
 	}
